@@ -451,8 +451,9 @@ func probaNt(sequenceCodes [][]uint8, selectedSites []bool, weights []float64) (
 					for _, n := range id1 {
 						pi[ntByteToId[n]] += w / float64(len(id1))
 					}
+					// Only nucleotides are counted (not gaps), so that frequencies sum to 1
+					total += w
 				}
-				total += w
 			}
 		}
 	}
